@@ -46,8 +46,11 @@ Statements.  x := e, var x T [= e], x = e, x op= e, x++, x--, a, b = e1, e2 (par
   integers), break, continue, return (also bare, with named results), panic(...), blocks.
   Only local variables can be assigned.  Each Go variable gets one Gallina name (a second
   variable of the same name: v_x_2); an assignment is a `let` that shadows it.
-  Statement lists are translated in continuation-passing style: the statements after an
-  `if`/`switch` are repeated in each branch that falls through.
+  An `if` whose branches contain no return/break/continue/panic is an expression whose value
+  is the tuple of the outer variables its branches assign; it is bound (let / bind) in front
+  of the statements that follow.  Any other `if`/`switch` is translated in
+  continuation-passing style: the statements after it are repeated in each branch that
+  falls through.
 Loops.  Each loop becomes  <f>_loopK_body : ... -> state -> outcome (step state result)
   (one iteration: Next s / Done s on a false condition or break / Ret r on return) and
   <f>_loopK fuel ... state := go_loop fuel (<f>_loopK_body ...) state.  The state is the
@@ -67,6 +70,15 @@ Files.  Those the go tool would compile without build tags (so `//go:build verif
 Results.  One result: its type; several: a tuple.  A function in which nothing can panic
   and nothing loops is a plain definition `: T`; any other is `: outcome T`
   (Ok v | Panic | OutOfFuel, see coq/Lib/GoSem.v) and takes `fuel` first if it loops.
+Fragments.  "F#prefix" translates the longest translatable PREFIX of the body of F (a function
+  that as a whole is outside the subset): its first k statements, stopping in front of the
+  first top-level return.  <prefix>F_prefix : option (v1 * ... * vn): None = control reached a
+  return statement inside the prefix (what is returned is not part of the fragment);
+  Some (...) = control reaches statement k+1 with these values of the representable
+  parameters and of the variables declared at the top level of the body (declaration order).
+  The comment in front of the definition says which statements and lines it covers; if the
+  source changes so that k changes, the tuple changes shape and dependent proofs stop
+  compiling.  A fragment cannot be called and is not validated differentially.
 Everything else (floats, maps, channels, pointers, closures, defer, go, select, goto,
   labels, append/make/copy, writes to fields or slice elements, calls outside the set,
   generic or variadic functions, range over strings/maps/channels/integers) makes the
